@@ -29,6 +29,7 @@ import (
 	"github.com/TarsCloud/TarsGo/tars/model"
 	"github.com/TarsCloud/TarsGo/tars/protocol/codec"
 	"github.com/TarsCloud/TarsGo/tars/protocol/res/requestf"
+	"github.com/TarsCloud/TarsGo/tars/transport"
 	"github.com/TarsCloud/TarsGo/tars/util/current"
 )
 
@@ -62,6 +63,10 @@ type CallSpec struct {
 	PayloadLen int    `json:"payload_len,omitempty"` // pad the payload to this many bytes
 	MustOK     bool   `json:"must_ok,omitempty"`     // the script answers this call correctly and long before its deadline
 	Proxy      int    `json:"proxy,omitempty"`       // which ServantProxy object makes the call (see Scenario.Proxies)
+	// Trigger marks the request: when the fake server reads it, it aborts the connection it came on with a
+	// TCP RST ("reset": SO_LINGER 0 + close) or answers with bytes that fail ParsePackage ("garbage"),
+	// whatever else is in flight on that connection, and keeps serving new connections.
+	Trigger string `json:"trigger,omitempty"`
 }
 
 type ClientConf struct {
@@ -103,12 +108,47 @@ type Scenario struct {
 	// manager and its AdapterProxy objects (pending-reply tables, connections) are cached per object name
 	// and shared by all of them.
 	Proxies int `json:"proxies,omitempty"`
+	// Force installs a function at the client's verif yield points (tars/transport/verif_client.go) that
+	// forces one interleaving. "stale-close": the receiver goroutine of a connection that has seen a read
+	// error is held at "recv.closing" until another connection has been installed by ReConnect, so that its
+	// connection.close(oldConn) runs on an already replaced connection.
+	Force string `json:"force,omitempty"`
 }
 
 // FilterPaths are the dispatch paths of TarsInvoke.
 var FilterPaths = []string{"", "single", "middleware", "prepost"}
 
 var filterCalls int64
+var forceHeld, forceDone int64
+
+// installForce: see Scenario.Force.
+func installForce(kind string) error {
+	switch kind {
+	case "":
+		return nil
+	case "stale-close":
+		var once int32
+		transport.VerifClientSetYield(func(point string, tc *transport.TarsClient, conn net.Conn) {
+			if point != "recv.closing" || conn == nil || !atomic.CompareAndSwapInt32(&once, 0, 1) {
+				return
+			}
+			atomic.AddInt64(&forceHeld, 1)
+			limit := time.Now().Add(6 * time.Second)
+			for time.Now().Before(limit) {
+				st := tc.VerifClientState()
+				if st.Conn != conn && !st.IsClosed {
+					atomic.AddInt64(&forceDone, 1)
+					// let the caller that re-dialled finish its Send before the stale close runs
+					time.Sleep(20 * time.Millisecond)
+					return
+				}
+				time.Sleep(time.Millisecond)
+			}
+		})
+		return nil
+	}
+	return fmt.Errorf("unknown forced interleaving %q", kind)
+}
 
 func installFilters(kind string) error {
 	pass := func(ctx context.Context, msg *tars.Message, invoke tars.Invoke, timeout time.Duration) error {
@@ -196,6 +236,8 @@ type Result struct {
 	GenPar    [][]int32    `json:"gen_par,omitempty"`
 	Capped    bool         `json:"capped,omitempty"`
 	FilterHit int64        `json:"filter_hit,omitempty"` // invocations of the installed pass-through client filters
+	ForceHeld int64        `json:"force_held,omitempty"` // goroutines held at the forced yield point
+	ForceDone int64        `json:"force_done,omitempty"` // … released because the forced condition was reached (not by the time limit)
 	Error     string       `json:"error,omitempty"`
 	WallMs    int64        `json:"wall_ms"`
 }
@@ -243,8 +285,11 @@ func BodyIsGarbage() bool {
 }
 
 // payload of caller i: "c:<i>:" padded with '.'; the echo is "r:<id>:" + request payload.
-func reqPayload(i, padTo int) []byte {
+func reqPayload(i, padTo int, trigger string) []byte {
 	s := []byte(fmt.Sprintf("c:%d:", i))
+	if trigger != "" {
+		s = append(s, []byte("!"+trigger+":")...)
+	}
 	if len(s) < padTo {
 		out := make([]byte, padTo)
 		copy(out, s)
@@ -589,6 +634,24 @@ func (fs *fakeServer) serve(c net.Conn) {
 		if req.CPacketType == 1 { // one-way request: never answered
 			continue
 		}
+		head := payload
+		if len(head) > 40 {
+			head = head[:40]
+		}
+		if bytes.Contains(head, []byte("!reset:")) {
+			fs.r.mu.Lock()
+			fs.r.res.Sent = append(fs.r.res.Sent, Sent{Server: fs.idx, Kind: "reset", ID: req.IRequestId, Body: -1, AtUs: fs.r.us()})
+			fs.r.mu.Unlock()
+			if tc, ok := c.(*net.TCPConn); ok {
+				tc.SetLinger(0) // close sends an RST
+			}
+			c.Close()
+			return
+		}
+		if bytes.Contains(head, []byte("!garbage:")) {
+			fs.sendRaw(c, "garbageFrame", []byte{0, 0, 0, 1, 0xde, 0xad})
+			continue
+		}
 		keep := payload
 		if len(keep) > 48 {
 			keep = keep[:48]
@@ -694,7 +757,7 @@ func (r *runner) oneCall(specIdx int, cs CallSpec, done chan<- struct{}) {
 	slot := len(r.res.Calls)
 	r.res.Calls = append(r.res.Calls, CallResult{I: i, Spec: specIdx, Oneway: cs.Oneway, StartUs: r.us(), Outcome: "hang", RespTag: -1})
 	r.mu.Unlock()
-	payload := reqPayload(i, cs.PayloadLen)
+	payload := reqPayload(i, cs.PayloadLen, cs.Trigger)
 	ctx := current.ContextWithClientCurrent(context.Background())
 	var cancel context.CancelFunc
 	switch cs.Timeout {
@@ -755,6 +818,10 @@ func RunChild(sc *Scenario) *Result {
 	}
 	comm := tars.NewCommunicator()
 	if err := installFilters(sc.Filter); err != nil {
+		res.Error = err.Error()
+		return res
+	}
+	if err := installForce(sc.Force); err != nil {
 		res.Error = err.Error()
 		return res
 	}
@@ -889,6 +956,8 @@ func snapshot(r *runner) *Result {
 	r.mu.Lock()
 	defer r.mu.Unlock()
 	r.res.FilterHit = atomic.LoadInt64(&filterCalls)
+	r.res.ForceHeld = atomic.LoadInt64(&forceHeld)
+	r.res.ForceDone = atomic.LoadInt64(&forceDone)
 	b, _ := json.Marshal(r.res)
 	out := &Result{}
 	json.Unmarshal(b, out)
